@@ -5,7 +5,7 @@
 (* 4-level digest vector of the key).  Each operator returns the new       *)
 (* dictionary and the result the API must report (C02, C12, C13, C18).     *)
 (***************************************************************************)
-EXTENDS Integers, Sequences, FiniteSets
+EXTENDS Integers, Sequences, FiniteSets, SequencesExt
 
 Levels == 4
 
@@ -35,8 +35,9 @@ MRem(D, k) == IF HasKey(D, k) THEN [s |-> DropAt(D, IdxOf(D, k)), r |-> MOk(ValO
 \* canonical enumeration order (C13): ascending digest vector, insertion order among full collisions
 VecLess(x, y) == \E l \in 1..Levels : (\A m \in 1..(l - 1) : x[m] = y[m]) /\ x[l] < y[l]
 Before(D, i, j) == VecLess(D[i].d, D[j].d) \/ (D[i].d = D[j].d /\ i < j)
-Rank(D, i) == Cardinality({j \in 1..Len(D) : Before(D, j, i)}) + 1
-Canonical(D) == [p \in 1..Len(D) |-> D[CHOOSE i \in 1..Len(D) : Rank(D, i) = p]]
+Canonical(D) == LET idx == [i \in 1..Len(D) |-> [e |-> D[i], i |-> i]]
+                    srt == SortSeq(idx, LAMBDA a, b : VecLess(a.e.d, b.e.d) \/ (a.e.d = b.e.d /\ a.i < b.i))
+                IN [p \in 1..Len(D) |-> srt[p].e]
 CanonKeys(D) == [p \in 1..Len(D) |-> Canonical(D)[p].k]
 CanonVals(D) == [p \in 1..Len(D) |-> Canonical(D)[p].v]
 Pairs(D) == {<<D[i].k, D[i].v>> : i \in 1..Len(D)}
